@@ -10,7 +10,7 @@ for id in $IDS; do
   rsync -a --delete --exclude .git /repo/ "$S/"
   if ! (cd "$S" && patch -p1 -s --dry-run < /verif/seeded/$id/patch.diff >/dev/null 2>&1); then echo "$id PATCH-DOES-NOT-APPLY"; continue; fi
   (cd "$S" && patch -p1 -s < /verif/seeded/$id/patch.diff)
-  PYVC_REPO="$S" bin/check "$P" > "$S.log" 2>&1; code=$?
+  PYVC_REPO="$S" PYVC_OUT="$S.out" bin/check "$P" > "$S.log" 2>&1; code=$?
   echo "$id exit=$code $(grep -c '^VIOLATION' "$S.log") violations: $(grep '^VIOLATION' "$S.log" | head -2 | sed 's/.*obligation=//' | tr '\n' ';' | cut -c1-160)"
 done
-rm -rf "$S" "$S.log"
+rm -rf "$S" "$S.log" "$S.out"
